@@ -43,6 +43,9 @@ Qed.
 Lemma follow_cons : forall x r, wordc x = false -> follow (x :: r).
 Proof. intros x r H. exact H. Qed.
 
+Lemma cons_inv : forall (x : Z) a b, x :: a = x :: b -> a = b.
+Proof. intros x a b H. injection H as H. exact H. Qed.
+
 (* ---- splitting a text ------------------------------------------------------- *)
 Lemma word_split : forall w w' r r', forallb wordc w = true -> forallb wordc w' = true ->
   follow r -> follow r' -> w ++ r = w' ++ r' -> w = w' /\ r = r'.
@@ -527,7 +530,7 @@ Section Inj.
     - exfalso. destruct (bracket_cell_head ListS _ f s (or_introl eq_refl) Wc Vc) as (y & X & E & N).
       rewrite E in H. injection H as H _. apply N. exact H.
     - destruct (wf_list_cell _ _ _ Wd) as (Wf' & Ws' & -> & Ts'). destruct (valid_cell _ _ _ _ Vd) as [Vf' Vs'].
-      rewrite !pr_list in H. cbn [app] in H. injection H as H. rewrite <- !app_assoc in H.
+      rewrite !pr_list in H. rewrite <- !app_comm_cons in H. apply cons_inv in H. rewrite <- !app_assoc in H.
       apply after_bracket_strip in H; [|apply pr_nonblank; assumption|apply pr_nonblank; assumption].
       destruct (Pf f' _ _ Wf Vf Wf' Vf' (follow_ltail _ _) (follow_ltail _ _) H) as [<- H1].
       destruct (Pls s' _ _ Ws Vs Ws' Vs' Ts Ts' (closes_cons 93 _ (or_introl eq_refl)) (closes_cons 93 _ (or_introl eq_refl)) H1)
@@ -537,8 +540,8 @@ Section Inj.
       destruct (wf_entry_cell MapS _ _ _ (or_introl eq_refl) Wd) as (Wf' & _ & _ & _ & m & k & v & ->).
       destruct (wf_pair_cell _ _ _ Wf') as (Wk & _). destruct (valid_cell _ _ _ _ Vd) as [Vf' _].
       destruct (valid_cell _ _ _ _ Vf') as [Vk _].
-      rewrite pr_list, pr_map in H. cbn [app] in H. injection H as H. rewrite <- !app_assoc in H.
-      apply after_bracket_strip in H; [|apply pr_nonblank; assumption|apply entry_nonblank; assumption].
+      rewrite pr_list, pr_map in H. rewrite <- !app_comm_cons in H. apply cons_inv in H. rewrite <- !app_assoc in H.
+      apply after_bracket_strip in H; [|apply pr_nonblank; assumption|apply (entry_nonblank m); assumption].
       cbn [print_entry] in H. rewrite <- !app_assoc in H.
       destruct (Pf k _ _ Wf Vf Wk Vk (follow_ltail _ _) (follow_colon _) H) as [_ H1].
       destruct s; [rewrite ltail_leaf in H1|rewrite ltail_cell in H1]; discriminate H1.
@@ -556,17 +559,17 @@ Section Inj.
       rewrite E in H. injection H as H _. apply N. exact H.
     - exfalso.
       destruct (wf_list_cell _ _ _ Wd) as (Wf' & _). destruct (valid_cell _ _ _ _ Vd) as [Vf' _].
-      rewrite pr_list, pr_map in H. cbn [app] in H. injection H as H. rewrite <- !app_assoc in H.
-      apply after_bracket_strip in H; [|apply entry_nonblank; assumption|apply pr_nonblank; assumption].
+      rewrite pr_list, pr_map in H. rewrite <- !app_comm_cons in H. apply cons_inv in H. rewrite <- !app_assoc in H.
+      apply after_bracket_strip in H; [|apply (entry_nonblank m); assumption|apply pr_nonblank; assumption].
       cbn [print_entry] in H. rewrite <- !app_assoc in H. destruct PS as [Pk _].
       destruct (Pk f' _ _ Wk Vk Wf' Vf' (follow_colon _) (follow_ltail _ _) H) as [_ H1].
       destruct s'; [rewrite ltail_leaf in H1|rewrite ltail_cell in H1]; discriminate H1.
     - destruct (wf_entry_cell MapS _ _ _ (or_introl eq_refl) Wd) as (Wf' & Ws' & -> & Ts' & m' & k' & v' & ->).
       destruct (valid_cell _ _ _ _ Vd) as [Vf' Vs'].
       destruct (wf_pair_cell _ _ _ Wf') as (Wk' & _). destruct (valid_cell _ _ _ _ Vf') as [Vk' _].
-      rewrite !pr_map in H. cbn [app] in H. injection H as H. rewrite <- !app_assoc in H.
-      apply after_bracket_strip in H; [|apply entry_nonblank; assumption|apply entry_nonblank; assumption].
-      destruct (P_entry _ _ _ _ PS eq_refl eq_refl Wf Vf Wf' Vf'
+      rewrite !pr_map in H. rewrite <- !app_comm_cons in H. apply cons_inv in H. rewrite <- !app_assoc in H.
+      apply after_bracket_strip in H; [|apply (entry_nonblank m); assumption|apply (entry_nonblank m'); assumption].
+      destruct (P_entry (CCell PairS m k v) (CCell PairS m' k' v') _ _ PS eq_refl eq_refl Wf Vf Wf' Vf'
                   (follow_mtail _ 93 _ (or_introl eq_refl)) (follow_mtail _ 93 _ (or_introl eq_refl)) H) as [<- H1].
       destruct (Pms MapS s' _ _ (or_introl eq_refl) Ws Vs Ws' Vs' Ts Ts'
                   (closes_cons 93 _ (or_introl eq_refl)) (closes_cons 93 _ (or_introl eq_refl)) H1) as [<- H2].
@@ -584,8 +587,8 @@ Section Inj.
       destruct (valid_cell _ _ _ _ Vc) as [Vf Vs].
       destruct (wf_entry_cell StructS _ _ _ (or_intror eq_refl) Wd) as (Wf' & Ws' & -> & Ts' & m' & k' & v' & ->).
       destruct (valid_cell _ _ _ _ Vd) as [Vf' Vs'].
-      rewrite !pr_struct in H. cbn [app] in H. injection H as H. rewrite <- !app_assoc in H.
-      destruct (P_entry _ _ _ _ PS eq_refl eq_refl Wf Vf Wf' Vf'
+      rewrite !pr_struct in H. rewrite <- !app_comm_cons in H. apply cons_inv in H. rewrite <- !app_assoc in H.
+      destruct (P_entry (CCell PairS m k v) (CCell PairS m' k' v') _ _ PS eq_refl eq_refl Wf Vf Wf' Vf'
                   (follow_mtail _ 125 _ (or_intror eq_refl)) (follow_mtail _ 125 _ (or_intror eq_refl)) H) as [<- H1].
       destruct (Pms StructS s' _ _ (or_intror eq_refl) Ws Vs Ws' Vs' Ts Ts'
                   (closes_cons 125 _ (or_intror eq_refl)) (closes_cons 125 _ (or_intror eq_refl)) H1) as [<- H2].
@@ -643,7 +646,7 @@ Section Inj.
       rewrite !mtail_cell, <- !app_assoc in H. apply app_inv_head in H.
       assert (G : forall s0 r, closes r -> follow (mtail s0 ++ r)).
       { intros s0 r (x & r' & -> & Hx). apply follow_mtail. exact Hx. }
-      destruct (P_entry _ _ _ _ PS eq_refl eq_refl Wf Vf Wf' Vf' (G _ _ C1) (G _ _ C2) H) as [<- H1].
+      destruct (P_entry (CCell PairS m k v) (CCell PairS m' k' v') _ _ PS eq_refl eq_refl Wf Vf Wf' Vf' (G _ _ C1) (G _ _ C2) H) as [<- H1].
       destruct (Pms T s' _ _ HT Ws Vs Ws' Vs' Ts Ts' C1 C2 H1) as [<- <-]. split; reflexivity.
   Qed.
 
@@ -673,3 +676,30 @@ Section Inj.
     destruct (print_decodable c d [] [] Wc Vc Wd Vd I I) as [E _]; [rewrite !app_nil_r; exact H|exact E].
   Qed.
 End Inj.
+
+(* ---- the laws are satisfiable: formatters built from the decimal printer ---- *)
+Definition toy_float (b : Z) : list Z := print_number b ++ [46; 48].
+
+Lemma print_number_no_quote : forall n, ~ In 34 (print_number n).
+Proof.
+  intros n I. destruct (print_number_numc n) as [A _]. rewrite forallb_forall in A. specialize (A 34 I). discriminate A.
+Qed.
+
+Lemma toy_laws :
+  (forall b b', float_special b = false -> float_special b' = false ->
+     format_float64 toy_float b = format_float64 toy_float b' -> b = b') /\
+  (forall b, float_special b = false -> forallb numc (toy_float b) = true) /\
+  (forall n n', print_number n = print_number n' -> n = n') /\
+  (forall n, ~ In 34 (print_number n)).
+Proof.
+  assert (D : forall b, float_special b = false -> format_float64 toy_float b = toy_float b).
+  { intros b F. unfold format_float64. rewrite F. cbn [orb].
+    replace (has_byte 46 (toy_float b)) with true; [reflexivity|].
+    symmetry. apply has_byte_In. unfold toy_float. apply in_or_app. right. left. reflexivity. }
+  split; [|split; [|split]].
+  - intros b b' F F' H. rewrite (D b F), (D b' F') in H. unfold toy_float in H. apply app_inv_tail in H.
+    apply print_number_inj_lemma. exact H.
+  - intros b _. unfold toy_float. rewrite forallb_app. destruct (print_number_numc b) as [A _]. rewrite A. reflexivity.
+  - exact print_number_inj_lemma.
+  - exact print_number_no_quote.
+Qed.
